@@ -19,6 +19,8 @@ CONSTANTS
   ParserContinuesAfterShortRange = TRUE
   Budget0PlansNothing = FALSE
   TailInitPersistsZero = FALSE
+  CkptCountedOnEveryReport = FALSE
+  NewProcReopen = FALSE
 INVARIANTS RefinesCex
 VIEW View
 CHECK_DEADLOCK FALSE
